@@ -296,16 +296,18 @@ class Transmitter(AbstractTransmitter):
         if (self._step_nr == 1) and (not self._markov_reset):
             origin = (self._current_time - self._warmup) if self._warmup else datetime.min
             #start_date, end_date = self._folds[self._fold_name]
-            events_latent = [
-                e for t, e in self._partition_latent.items()
+            # Past events are replayed in chronological order: the latent
+            # events of a timestep come before its non-latent events and
+            # after all events of the previous timesteps.
+            timesteps = sorted(
+                t for t in set(self._partition_latent) | set(self._partition_nonlatent)
                 if origin <= t <= self._current_time
-            ]
-            events_latent = list(itertools.chain(*events_latent))
-            events_nonlatent = [
-                events for t, events in self._partition_nonlatent.items()
-                if origin <= t <= self._current_time
-            ]
-            events_nonlatent = list(itertools.chain(*events_nonlatent))
+            )
+            events_latent = list(self._partition_latent.get(timesteps[0], []))
+            events_nonlatent = list(self._partition_nonlatent.get(timesteps[0], []))
+            for t in timesteps[1:]:
+                events_nonlatent.extend(self._partition_latent.get(t, []))
+                events_nonlatent.extend(self._partition_nonlatent.get(t, []))
         else:
             events_latent = self._partition_latent[self._current_time]
             events_nonlatent = self._partition_nonlatent[self._current_time]
